@@ -185,6 +185,8 @@ impl<W, R, T> Runtime<W, R, T> {
                 usize::from(stats.size) <= max_size,
             );
             if usize::from(stats.size) > max_size {
+                // the value is not created, so its bytes are not accounted
+                stats.size -= size;
                 Err(RuntimeViolation::AllocationLimitReached)
             } else {
                 Ok(size)
